@@ -487,7 +487,7 @@ pub fn run(tier: Tier) -> i32 {
         st.outcomes.get("sentence/accepted").cloned().unwrap_or(0) > 1000
             && st.outcomes.get("non-sentence/parse-error").cloned().unwrap_or(0) > 1000,
     );
-    rep.rule = "every token sequence over T22 up to the length bound (prefix-tree DFS, incremental Earley chart), every character string over Sigma28 up to its bound, every sequence over T32+extreme numbers up to its bound, and every viable prefix followed by k arbitrary tokens; each rendered string is compiled by the implementation and decided by R-lex + Earley membership. non-trivial = the string is a sentence of the grammar".into();
+    rep.rule = "every token sequence over T22 up to the length bound (prefix-tree DFS, incremental Earley chart), every character string over Sigma28 up to its bound, every sequence over T32+extreme numbers up to its bound, and every viable prefix followed by k arbitrary tokens; each rendered string is compiled by the implementation and decided by R-lex + Earley membership. non-trivial = the string is a sentence of the grammar Numeral family: zero padding, many digits, the i32 edges and non-ASCII numeric code points (superscript, Arabic-Indic, full-width, Roman, fraction, mathematical, circled) alone / after '-' / next to ASCII digits, in six bracket forms.".into();
     rep.bounds = json!({"token_len": l, "char_len": k, "class_equiv_len": dlen, "deviation": {"viable_prefix_len": lv, "extra_tokens": kk, "thorough_extra": "(5,3)"}, "alphabet_T22": a22.texts, "sigma": SIGMA.iter().collect::<String>()});
     rep.assumptions = vec![
         "grammar = published ABNF at token level (DESIGN 3.1); lexical rules as in the C03 statement".into(),
